@@ -355,3 +355,53 @@ Definition timed_ignored (c : peer) (horizon : N) (msgs : list (N * wmsg))
   if sorted_times msgs && in_horizon horizon msgs
   then tobs_eqb with_all with_own && outs_justified c (map snd msgs) (fst with_all)
   else true.
+
+(* ---------------------------------------------------------------------------------------------- *)
+(* Which role a relayer takes in an attempt (tss/coordinator.go start):
+     coordinator.Pretty() == c.host.ID().Pretty()  ->  initiate (the coordinator's ready loop),
+     otherwise                                          waitForStart.
+   Pretty() is the base58 text of ALL bytes of an id, an injective printing: the comparison is identity of
+   peers, which is what a peer number stands for here (two table entries are two different byte strings,
+   however much alike they look).  The empty id returned for an empty candidate list ([None]) is nobody's
+   host id. *)
+Definition takes_coordinator_role (c : option peer) (self : peer) : bool :=
+  match c with Some c => N.eqb c self | None => false end.
+
+(* ---------------------------------------------------------------------------------------------- *)
+(* Several sessions on ONE relayer (one long-lived tss.Coordinator object serves every session of a
+   relayer; Execute runs once per session, concurrently).  Every Execute call has its own coordinator
+   (elected from ITS session id), its own waitForStart loop and its own watcher - the Coordinator
+   object shares nothing between sessions but the table of pending session ids.  A session is named by
+   a number; [cs s] is the coordinator of session s (the id both waitForStart and the watcher of that
+   session are told); an event (s, m) is message m arriving for session s (messages carry their
+   session id; the communication layer hands them to the subscriptions of that session only).
+   [multi_run] is what the relayer does, every action tagged with the session it belongs to. *)
+Definition session := N.
+Definition sstate := session -> wstate.
+
+Definition upd (st : sstate) (s : session) (x : wstate) : sstate :=
+  fun k => if N.eqb k s then x else st k.
+
+(* [wcs s] = what the watcher of session s was told, [cs s] = what its waitForStart was told: the same id in
+   a first attempt, the empty id / the re-elected coordinator in a retried attempt (see wait_step2) *)
+Fixpoint multi_run2 (wcs cs : session -> option peer) (st : sstate) (script : list (session * wmsg))
+  : list (session * wout) :=
+  match script with
+  | [] => []
+  | (s, m) :: r =>
+      let (st', o) := wait_step2 (wcs s) (cs s) (st s) m in
+      map (pair s) o ++ multi_run2 wcs cs (upd st s st') r
+  end.
+
+(* every session in its first attempt *)
+Definition multi_run (cs : session -> option peer) : sstate -> list (session * wmsg) -> list (session * wout) :=
+  multi_run2 cs cs.
+
+Definition of_session {A : Type} (s : session) (l : list (session * A)) : list A :=
+  map snd (filter (fun x : session * A => N.eqb (fst x) s) l).
+
+Definition all_waiting : sstate := fun _ => Waiting.
+
+(* the events a session's own coordinator sent (sessions without a coordinator accept everybody) *)
+Definition own_events (cs : session -> option peer) (script : list (session * wmsg)) : list (session * wmsg) :=
+  filter (fun e : session * wmsg => match cs (fst e) with Some c => from_is c (snd e) | None => true end) script.
